@@ -9,6 +9,7 @@
 //! the real WalWriter under seeded faults vs Model/WalWriter.v, compared inside coqc (cases_<k>.v);
 //! (3) TieredEngine::bulk_load_cold_tier with invalid items.
 mod bulk;
+mod seg;
 mod wstream;
 use kvh::rng::Rng;
 use kvh_pers::eng;
@@ -281,8 +282,10 @@ fn main() {
     if args.len() >= 4 && args[1] == "child" { child(&args[2], &args[3]); return }
     if args.len() >= 4 && args[1] == "wchild" { wstream::wchild(&args[2], &args[3]); return }
     if args.len() >= 4 && args[1] == "bchild" { bulk::bchild(&args[2], &args[3]); return }
+    if args.len() >= 4 && args[1] == "schild" { seg::schild(&args[2], &args[3]); return }
     let mut out = String::from("/verif/.cache/run/C03");
     let (mut n, mut wn, mut bn) = (150usize, 240usize, 40usize);
+    let (mut sh, mut scap) = (5usize, 60usize);
     let mut tier = String::from("quick");
     let mut replay: Option<String> = None;
     let mut i = 1;
@@ -292,6 +295,8 @@ fn main() {
             "--n" => { n = args[i + 1].parse().unwrap(); i += 1 }
             "--wn" => { wn = args[i + 1].parse().unwrap(); i += 1 }
             "--bn" => { bn = args[i + 1].parse().unwrap(); i += 1 }
+            "--sh" => { sh = args[i + 1].parse().unwrap(); i += 1 }
+            "--scap" => { scap = args[i + 1].parse().unwrap(); i += 1 }
             "--tier" => { tier = args[i + 1].clone(); i += 1 }
             "--replay" => { replay = Some(args[i + 1].clone()); i += 1 }
             _ => {}
@@ -300,14 +305,16 @@ fn main() {
     }
     let work = PathBuf::from(&out);
     std::fs::create_dir_all(&work).unwrap();
-    for f in std::fs::read_dir(&work).unwrap().flatten() { if f.file_name().to_string_lossy().starts_with("cases_") { let _ = std::fs::remove_file(f.path()); } }
+    for f in std::fs::read_dir(&work).unwrap().flatten() { if f.file_name().to_string_lossy().starts_with("cases_") || f.file_name().to_string_lossy().starts_with("segcases_") { let _ = std::fs::remove_file(f.path()); } }
     let mut plans: Vec<Plan> = vec![];
     let mut wplans: Vec<wstream::WPlan> = vec![];
     let mut bplans: Vec<bulk::BPlan> = vec![];
+    let mut splans: Vec<seg::SPlan> = vec![];
     if let Some(p) = &replay {
         let v: serde_json::Value = serde_json::from_str(&std::fs::read_to_string(p).unwrap()).unwrap();
         if v.get("wplan").is_some() { wplans.push(serde_json::from_value(v["wplan"].clone()).unwrap()) }
         else if v.get("bplan").is_some() { bplans.push(serde_json::from_value(v["bplan"].clone()).unwrap()) }
+        else if v.get("splan").is_some() { splans.push(serde_json::from_value(v["splan"].clone()).unwrap()) }
         else {
             let pv = if v.get("plan").is_some() { v["plan"].clone() } else { v };
             plans.push(serde_json::from_value(pv).unwrap());
@@ -321,6 +328,7 @@ fn main() {
                     if let Ok(v) = serde_json::from_str::<serde_json::Value>(&s) {
                         if v.get("wplan").is_some() { if let Ok(w) = serde_json::from_value(v["wplan"].clone()) { wplans.push(w) } }
                         else if v.get("bplan").is_some() { if let Ok(b) = serde_json::from_value(v["bplan"].clone()) { bplans.push(b) } }
+                        else if v.get("splan").is_some() { if let Ok(b) = serde_json::from_value(v["splan"].clone()) { splans.push(b) } }
                         else if let Ok(pl) = serde_json::from_value::<Plan>(if v.get("plan").is_some() { v["plan"].clone() } else { v }) { plans.push(pl) }
                     }
                 }
@@ -332,6 +340,18 @@ fn main() {
         wplans.extend(wstream::gen_wplans(&mut wrng, wn, tier == "thorough"));
         let mut brng = rng.fork(0xB1);
         bplans.extend(bulk::gen_bplans(&mut brng, bn, &special_vectors));
+        // stream 4: every single-fault position of rotation / snapshot heavy histories
+        let mut srng = rng.fork(0x5E6);
+        let hists: Vec<History> = (0..sh).map(|k| seg::gen_hist(&mut srng.fork(k as u64), k)).collect();
+        let counts = par_map(&hists, |j, h| seg::effect_counts(&seg::SPlan { hist: h.clone(), fault_at: None, fault: String::new(), kind: "dry".into() }, &work, &format!("sd{}", j), SHIM));
+        for (j, h) in hists.iter().enumerate() {
+            if let Some(c) = &counts[j] { splans.extend(seg::plans_for(h, c, &mut srng.fork(1000 + j as u64), scap)) }
+        }
+        // the same plans also go through the direct property oracle of stream 1
+        for sp in &splans {
+            let at = match sp.fault_at { Some(a) if a >= 0 => Some(a as usize), None => None, _ => continue };
+            plans.push(Plan { hist: sp.hist.clone(), fault_at: at, fault: sp.fault.clone(), kind: format!("fault:{}", sp.kind) });
+        }
     }
 
     // ---------------- stream 1: engine-level direct property oracle ----------------
@@ -421,7 +441,49 @@ fn main() {
         }
     }
 
+    // ---------------- stream 4: segment-level correspondence (Model/Segments.v) ----------------
+    let sres = par_map(&splans, |j, p| seg::run_schild(p, &work, &format!("s{}", j), SHIM));
+    let mut skinds: BTreeMap<String, u64> = BTreeMap::new();
+    let mut smicro: BTreeMap<String, u64> = BTreeMap::new();
+    let (mut s_events, mut s_faults, mut s_ran) = (0u64, 0u64, 0u64);
+    let mut sbody: Vec<String> = vec![];
+    let mut sall = vec![];
+    let mut sshards = 0usize;
+    for (j, r) in sres.iter().enumerate() {
+        let p = &splans[j];
+        *skinds.entry(p.kind.split(':').take(2).collect::<Vec<_>>().join(":")).or_insert(0) += 1;
+        match r {
+            None => fails.push(json!({"stream": "segments", "plan_index": j, "why": "segment child produced no output / incomplete markers (crash/abort)", "class": null, "splan": p})),
+            Some(run) => {
+                s_ran += 1;
+                s_events += run.events as u64;
+                if run.faults_hit > 0 { s_faults += 1 }
+                for ms in &run.steps { for m in ms {
+                    let k = match m {
+                        seg::Micro::Append(_) => "append".to_string(),
+                        seg::Micro::Rotate(_, c, v) => format!("rotate:{}:{}", c, if *c == "COk" { v } else { "-" }),
+                        seg::Micro::Start(_, c, v) => format!("start:{}:{}", c, if *c == "COk" { v } else { "-" }),
+                        seg::Micro::Stop => "stop".to_string(),
+                        seg::Micro::Snapshot(_, s, u) => format!("snapshot:{}:unlinks={}{}", s.join(","), u.len(), if u.iter().any(|b| !*b) { ":unlink-failed" } else { "" }),
+                    };
+                    *smicro.entry(k).or_insert(0) += 1;
+                } }
+                sbody.push(seg::case_lit(j, run));
+                sall.push(json!({"id": j, "splan": p}));
+                if sbody.len() >= 60 {
+                    std::fs::write(work.join(format!("segcases_{}.v", sshards)), seg::cases_file(&sbody)).unwrap();
+                    sshards += 1;
+                    sbody.clear();
+                }
+            }
+        }
+    }
+    if !sbody.is_empty() { std::fs::write(work.join(format!("segcases_{}.v", sshards)), seg::cases_file(&sbody)).unwrap(); sshards += 1 }
+    std::fs::write(work.join("seg_cases.json"), serde_json::to_string(&sall).unwrap()).unwrap();
+
     let summary = json!({
+        "segment_plans": splans.len(), "segment_plans_run": s_ran, "segment_plan_kinds": skinds, "segment_micro_steps": smicro,
+        "segment_effects_translated": s_events, "segment_plans_with_an_injected_error": s_faults, "segment_shards": sshards,
         "plans": plans.len(), "plan_kinds": kinds, "outcomes": outcome_hist, "errno_in_engine_plans": errno_hist,
         "plans_with_a_failed_operation": op_failed, "fault_plans_that_reached_io": fault_hit,
         "writer_plans": wplans.len(), "writer_plan_kinds": wkinds, "writer_results": wres_hist,
